@@ -95,6 +95,11 @@ CHECKS = {
         text="EdDSA (n,t) in {(2,1),(3,1),(3,2),(4,2),(4,3)} with identifier sets 1..n, gaps and PRNG 16-bit; ECDSA (2,1) quick, (3,1),(3,2) thorough; EdDSA key generation and orchestrated signing through real Loud/Silent schemes (this also decides C01's orchestrated-signing clause). Outsiders whose identifiers lie between the members' re-send every genuine message first: the session must complete as if nothing happened.",
         note="tss-lib v2.0.2 wire bytes carry no embedded sender, so the 'embedded sender differs' clause cannot occur on the wire; the consequence it protects (no message credited to anyone but its transport sender) is what is decided. Trusted: crypto/ed25519, crypto/ecdsa.",
         design="2/C19"),
+    "C20": dict(level="other", engine="hcore+hcrypto+hbinance (-race builds)",
+        technique="sanitizer: the Go race detector over full-stack sessions with concurrent per-link dispatch, staggered starts, several sessions at once and out-of-phase / duplicated traffic of a misbehaving participant; reports parsed from the detector's log files, de-duplicated by the pair of innermost IBM/TSS frames",
+        text="-race builds of all three drivers; scripted, BLS, PS and EdDSA backends; loud and silent mode; the out-of-phase scenarios re-send an earlier session's broadcast-class messages 0..200 us behind each transmission (the detector decides happens-before, the workload only has to make both sides execute without an intervening lock hand-over). A report whose frames are all in the harness is a harness failure (exit 3), reports with third-party frames only are counted, not judged.",
+        note="Reports vary from run to run: the quick tier repeats each scenario 10-12 times, thorough 100-120 times. Interleavings not produced are not covered.",
+        design="2/C20"),
 }
 
 NOT_YET = {}
